@@ -111,10 +111,9 @@ fn ref_number(t: &str) -> f64 {
 fn parse_input(text: &str, o: &Opts) -> Vec<([f64; 4], usize)> {
     let mut v = Vec::new();
     for line in text.lines() {
-        let mut toks: Vec<&str> = line.split_whitespace().collect();
-        if let Some(p) = toks.iter().position(|t| t.starts_with('#')) {
-            toks.truncate(p);
-        }
+        // a comment starts at '#', also when it is glued to the preceding value
+        let line = line.split('#').next().unwrap_or("");
+        let toks: Vec<&str> = line.split_whitespace().collect();
         if toks.is_empty() {
             continue;
         }
@@ -136,10 +135,7 @@ fn parse_input(text: &str, o: &Opts) -> Vec<([f64; 4], usize)> {
 /// Does a line give a height / time although -z / -t is given? (then the statement does not say which wins)
 fn line_conflicts(text: &str, o: &Opts) -> bool {
     text.lines().any(|line| {
-        let mut toks: Vec<&str> = line.split_whitespace().collect();
-        if let Some(p) = toks.iter().position(|t| t.starts_with('#')) {
-            toks.truncate(p);
-        }
+        let toks: Vec<&str> = line.split('#').next().unwrap_or("").split_whitespace().collect();
         (o.z.is_some() && toks.len() >= 3) || (o.t.is_some() && toks.len() >= 4)
     })
 }
@@ -321,6 +317,7 @@ pub fn run(tier: Tier) -> Report {
         ("one line, 2 columns", vec!["55 12\n".into()]),
         ("mixed 1-4 columns, comments, sexagesimal", vec!["# header\n55 12\n\n55:30:36N 12:45:36E 100   # trailing comment\n-33.5\n59 18 20 2001.5\n  1:30 2:15 3   \n".into()]),
         ("sexagesimal signs and hemispheres, zero degrees", vec!["-0:30:00 55:30:36\n0:30:00W 55:30:36N\n-0:15 -0:00:30\n0:45S 0:00:01.5E\n-1:30:36 +1:30:36\n12.5W 7.25S\n".into()]),
+        ("comments glued to values", vec!["55 12#glued comment\n56 13 # spaced comment\n#whole line\n57 14# another\n".into()]),
         ("homogeneous 3 columns", vec!["55 12 100\n56 13 0\n-33.9 151.2 -5.5\n".into()]),
         ("homogeneous 4 columns", vec!["55 12 100 2001\n56 13 0 2010.5\n".into()]),
         ("two files", vec!["55 12\n56 13\n".into(), "# second file\n57 14\n58 15\n".into()]),
